@@ -192,7 +192,7 @@ EDGE_VALUES = ([0, 1, 8, 9, 0xA, 0xB, 0xC, 0xD, 0xE, 0x1F, 0x20, 0x26, 0x3C, 0x4
                + list(range(0x80, 0xA0)))
 
 
-def gen_quick(g):
+def gen_quick(g, n_chunked=700, n_exact=2500):
     rng = g.rng
     names = sorted(HTML5)
     fol_keys = list(FOLLOWERS)
@@ -244,12 +244,12 @@ def gen_quick(g):
         g.add(rng.choice(CTXS), rng.random() < 0.8, rng.random() < 0.2, [body], "soup")
     # F. chunkings: every split position and one-character chunks, for a sample of what is there
     base_cases = list(zip(g.cases, g.meta))
-    for line, kind in rng.sample(base_cases, 700):
+    for line, kind in rng.sample(base_cases, min(n_chunked, len(base_cases))):
         ctx, closed, exact, chunks = parse_case(line)
         for ch in split_all("".join(chunks)):
             g.add(ctx, closed, exact, ch, "chunked/" + kind.split("/")[0])
     # G. exact_errors on a sample
-    for line, kind in rng.sample(base_cases, 2500):
+    for line, kind in rng.sample(base_cases, min(n_exact, len(base_cases))):
         ctx, closed, exact, chunks = parse_case(line)
         g.add(ctx, closed, True, chunks, "exact_errors/" + kind.split("/")[0])
 
@@ -376,6 +376,14 @@ def run(ck):
     proofs_ok = ck.coq_props()
     if not proofs_ok and table_diff:
         ck.broken.append("table diff (name, compiled, WHATWG): %r" % table_diff[:10])
+    if proofs_ok and not ck.quick and not ck.replay:
+        import vcommon
+        with vcommon.Lock("coq"):
+            rc_chk, out_chk = vcommon.sh("coqchk -silent -o -Q . HV HV.Props.C14", cwd=vcommon.COQ, timeout=1500)
+        if rc_chk != 0 or "Axioms: <none>" not in out_chk:
+            ck.broken.append("coqchk HV.Props.C14 failed: " + out_chk[-600:])
+        else:
+            ck.notes.append("coqchk -o HV.Props.C14: Axioms: <none>")
     # 3. harness + model
     bindir = ck.cargo_build(["charref"])
     impl = os.path.join(bindir, "charref")
@@ -406,9 +414,11 @@ def run(ck):
         for k, _, _ in table_diff[:50]:
             for ctx in CTXS:
                 g.add(ctx, True, False, ["&" + k], "tablediff")
-        gen_quick(g)
-        if not ck.quick:
+        if ck.quick:
+            gen_quick(g)
+        else:
             gen_thorough_named(g)
+            gen_quick(g, n_chunked=30000, n_exact=100000)
         ck.log("%d cases generated" % len(g.cases))
         samples = g.cases[:2] + g.cases[len(g.cases) // 2:len(g.cases) // 2 + 2]
         run_batch(g.cases, g.meta)
